@@ -98,7 +98,7 @@ func init() {
 		assumptions: []string{"integer overflow of cursor arithmetic is out of scope (lengths are bounded by buffer sizes)"},
 	})
 	register("C15", &propDef{
-		patterns:    []string{"./embedded/store", "./embedded/sql", "./embedded/tbtree", "./embedded/ahtree", "./embedded/appendable", "./embedded/document", "./pkg/api/schema", "./pkg/client", "./pkg/pgsql/server"},
+		patterns:    []string{"./embedded/store", "./embedded/sql", "./embedded/tbtree", "./embedded/ahtree", "./embedded/appendable", "./embedded/document", "./pkg/api/schema", "./pkg/client", "./pkg/pgsql/server/..."},
 		run:         c15,
 		explanation: "Decides structural agreement clauses of the codecs: sibling encoders/decoders perform the same sequence of fixed-width field operations; the SQL key and value codecs handle the same set of types on both sides (indexable types are storable; the only storable type without a key encoding is documented); length limits are compared with the same operator on the writing and the reading side; Timestamp values are normalised to microseconds wherever they enter the engine (the key codec encodes nanoseconds, the value codec microseconds); metadata proto conversions carry every attribute. It does NOT decide round-trip equality or order preservation for all values.",
 		assumptions: []string{"codecs are written in the straight-line cursor style (source order = wire order)"},
